@@ -174,9 +174,50 @@ Definition dec_class (w : Z) (d : list Z) (args key : list Z) : Z :=
   else if (w =? 50) && is_panic (run_model w d args key) then 14
   else 0.
 
-(* Xp cases: kind 1 = LeafNode::find_key on a corrupted leaf page, feat = [stored cell_count];
-             kind 2.. = corrupted database directory, feat = [file kind; region; ...] (see harness) *)
-Definition xp_class (kind : Z) (feat : list Z) (o : xout) : Z := 0.
+(* Xp cases (exploration, no model): the class is keyed by WHERE the run ended (source file of the panic
+   location + message class, abort, watchdog) and by the SHAPE of the input:
+     kind 1  LeafNode::from_page + find_key on a corrupted leaf page      feat = [stored cell_count]
+     kind 2  corrupted database directory: open + scans + lookups + writes + close in a child process
+             feat = [file kind (1 turdb.meta, 2 turdb.catalog, 3 table, 4 toast table, 5 index, 6 WAL segment,
+                     7 system table); region of the first edit; template; page; offset in page]
+     kind 3  JsonbView::new + as_value + full walk on corrupted JSONB bytes   feat = [length]
+   site codes (harness file_code): 1 btree/leaf.rs, 2 btree/interior.rs, 3 btree/simd_scan.rs, 9 records/view.rs,
+   10 records/jsonb.rs, 22 other src/records, 0 outside src;  message classes: 3 arithmetic overflow,
+   4 slice / index out of range, 5 unwrap / expect, 7 capacity overflow.
+     8   find_key_simd (simd_scan.rs) indexes the slot array beyond the page: stored cell_count > 2045
+     9   LeafNode / LeafNodeMut (leaf.rs) on a corrupted leaf page of a database file: the database-level reach of
+         classes 1 and 2 and the same unchecked arithmetic in the write path (free_end - free_start, insert_cell)
+     10  InteriorNode (interior.rs) on a corrupted interior page of a database file: reach of class 3
+     11  turdb.catalog: the stored catalog length is allocated unchecked (capacity overflow panic / allocation abort)
+     12  a scan of a page file whose leaf chain was made cyclic never ends (watchdog)
+     13  JsonbView accessors slice the entry table / data section unchecked
+     14  RecordView getters on record bytes corrupted inside a page file: reach of class 14 of the decoder table
+     15  turdb.catalog body corrupted undetected (no checksum): rows are then read / written with the wrong column
+         types and the record code panics *)
+Definition fnth (l : list Z) (i : nat) : Z := nth i l 0.
+Definition page_file (k : Z) : bool := (k =? 3) || (k =? 4) || (k =? 5) || (k =? 7).
+Definition xp_class (kind : Z) (feat : list Z) (o : xout) : Z :=
+  if kind =? 1 then
+    match o with XPanic 3 4 => if 2045 <? fnth feat 0 then 8 else 0 | _ => 0 end
+  else if kind =? 3 then
+    match o with XPanic 10 _ => 13 | _ => 0 end
+  else if kind =? 2 then
+    let fk := fnth feat 0 in
+    let off := fnth feat 3 * 16384 + fnth feat 4 in
+    match o with
+    | XPanic site cls =>
+        if page_file fk && (site =? 3) && (cls =? 4) then 8
+        else if page_file fk && (site =? 1) && ((cls =? 3) || (cls =? 4)) then 9
+        else if page_file fk && (site =? 2) && (cls =? 4) then 10
+        else if page_file fk && ((site =? 9) || (site =? 22)) && (cls =? 4) then 14
+        else if (fk =? 2) && (off <? 80) && (site =? 0) && (cls =? 7) then 11
+        else if (fk =? 2) && (128 <=? off) && ((site =? 9) || (site =? 22)) && (cls =? 4) then 15
+        else 0
+    | XAbort => if (fk =? 2) && (off <? 80) then 11 else 0
+    | XTimeout => if page_file fk then 12 else 0
+    | XOk _ _ => 0
+    end
+  else 0.
 
 Definition known_class (c : case) : Z :=
   match c with
